@@ -175,3 +175,51 @@ pub fn run(seed: u64, samples_per_format: u64) -> SelfCheck {
     j.set("errors", J::u(errors.len() as u64));
     SelfCheck { json: j, errors }
 }
+
+
+/// End-to-end canary: a 10-bit posit addition with an error planted on a known set of operand
+/// pairs is pushed through the same sweep / compare / confirm / report path as the real
+/// operations. The sweep has to report exactly the planted pairs - a monitor that silently
+/// stopped comparing (or an oracle compared with itself) would report none and the run would be
+/// refused as a harness error instead of passing for the wrong reason.
+pub fn canary(ctx: &crate::rt::Ctx) -> Result<(u64, u64), String> {
+    use crate::gen::Kind;
+    use crate::ops::{Op, OutKind, Registry};
+    use crate::sweep::{Mode, Plan};
+    use crate::val::Fmt;
+    let f = Fmt { n: 10, es: 1 };
+    fn planted(a: u64, b: u64) -> bool {
+        crate::rng::mix64((a << 16) | b) % 4099 == 0
+    }
+    let name = "canary::posit<10,1> add with a planted error";
+    let op = Op::new(name, &["CANARY"], &[Kind::Pat(f), Kind::Pat(f)], OutKind::Pat(f), move |a, b, _| {
+        let r = crate::fast::op_add(f, a as u32, b as u32) as u64;
+        if planted(a, b) {
+            r ^ 1
+        } else {
+            r
+        }
+    })
+    .oracle(crate::orf::bin(f, 0, crate::orf::Bin::Add));
+    let reg = Registry { ops: vec![op] };
+    let mut rep = crate::rt::Report::new("CANARY");
+    let plan = Plan { op: 0, mode: Mode::Exhaustive, name: name.to_string() };
+    crate::sweep::run_plan(ctx, &reg, &plan, &mut rep);
+    let mut want = 0u64;
+    for a in 0..1u64 << 10 {
+        for b in 0..1u64 << 10 {
+            if planted(a, b) {
+                want += 1;
+            }
+        }
+    }
+    let got = rep.failure_counts.get(name).copied().unwrap_or(0);
+    let witnesses_ok = rep.failures.iter().all(|fl| fl.inputs.len() == 2 && planted(fl.inputs[0], fl.inputs[1]));
+    if want == 0 || got != want || !witnesses_ok || !rep.harness_errors.is_empty() {
+        return Err(format!(
+            "canary: {} planted errors, {} reported, witnesses on planted inputs only: {}, harness errors: {:?}",
+            want, got, witnesses_ok, rep.harness_errors
+        ));
+    }
+    Ok((want, got))
+}
